@@ -40,6 +40,8 @@ def find_cached_semantic_action(semantics: Any, name: str) -> Callable[..., Any]
         return None
 
     for rulename in (name, safe_name(name), name.strip('_'), f'_{name}', f'_{name}_'):
+        if not rulename:
+            continue  # a name made only of underscores
         action = getattr(semantics, safe_name(rulename), None)
         if callable(action):
             break
